@@ -96,7 +96,64 @@ int main(int argc, char** argv) {
     long pairs = 0, evals = 0;
     if (mode == "pairs" || mode == "values") {
         auto et = Evaluate::getEvalHashTables();     // one cache for the whole run: gets thoroughly polluted
+        // Material families: the endgame evaluator keys its rules by material class and the evaluator caches per-material and per-pawn-
+        // structure data, so the same class must come out right whatever placement of it was evaluated first.  Classes: every material
+        // class named in endGameEval.cpp, plus or minus one unit; several random placements of one class go through the shared tables.
+        static const char* classes[] = {"Q|P", "Q|", "R|P", "R|B", "RP|R", "RP|RP", "NN|", "NB|", "P|", "P|P", "BP|B", "BP|N", "NP|B", "NP|", "BB|N",
+                                        "RP|B", "RP|BP", "R|BP", "BP|", "B|P", "N|", "B|", "N|N", "B|B", "N|B", "QP|Q", "RB|R", "RN|R", "Q|R", "Q|RP", "PP|P"};
+        auto materialFamily = [&]() {
+            std::string cls = classes[rnd.nextInt((int)(sizeof(classes) / sizeof(classes[0])))];
+            std::string side[2] = {cls.substr(0, cls.find('|')), cls.substr(cls.find('|') + 1)};
+            for (int extra = rnd.nextInt(3); extra > 0; extra--) side[rnd.nextInt(2)] += "QRBNPP"[rnd.nextInt(6)];
+            if (rnd.nextInt(2)) std::swap(side[0], side[1]);
+            int contempt = 0;
+            for (int placement = 0; placement < 8; placement++) {
+                for (int attempt = 0; attempt < 40; attempt++) {
+                    int board[64] = {0};
+                    auto put = [&](int pc, bool pawn) {
+                        for (int t = 0; t < 100; t++) {
+                            int sq = rnd.nextInt(64);
+                            if (board[sq] || (pawn && (sq < 8 || sq >= 56))) continue;
+                            // pawns like the edge files now and then (rook-pawn rules)
+                            if (pawn && rnd.nextInt(3) == 0) { int f = rnd.nextInt(2) ? 0 : 7; int sq2 = (sq / 8) * 8 + f; if (!board[sq2]) sq = sq2; }
+                            board[sq] = pc; return;
+                        }
+                    };
+                    put(Piece::WKING, false); put(Piece::BKING, false);
+                    for (int c = 0; c < 2; c++)
+                        for (char ch : side[c]) {
+                            int pc = ch == 'Q' ? Piece::WQUEEN : ch == 'R' ? Piece::WROOK : ch == 'B' ? Piece::WBISHOP : ch == 'N' ? Piece::WKNIGHT : Piece::WPAWN;
+                            put(c == 0 ? pc : pc + 6, ch == 'P');
+                        }
+                    std::string fen;
+                    for (int y = 7; y >= 0; y--) {
+                        int e = 0;
+                        for (int x = 0; x < 8; x++) {
+                            int pc = board[y * 8 + x];
+                            if (!pc) { e++; continue; }
+                            if (e) { fen += std::to_string(e); e = 0; }
+                            fen += " KQRBNPkqrbnp"[pc];
+                        }
+                        if (e) fen += std::to_string(e);
+                        if (y) fen += '/';
+                    }
+                    fen += rnd.nextInt(2) ? " w - - 0 1" : " b - - 0 1";
+                    Position pos;
+                    try { pos = TextIO::readFEN(fen); } catch (const ChessParseError&) { continue; }
+                    { Position chk(pos); chk.setWhiteMove(!pos.isWhiteMove()); if (MoveGen::inCheck(chk)) continue; }   // side not to move in check
+                    Evaluate ev(*et);
+                    ev.connectPosition(pos);
+                    ev.setWhiteContempt(contempt);
+                    int v = ev.evalPos();
+                    evals++;
+                    if (mode == "values") os << "{\"e\":\"EvalVal\",\"x\":" << evJ(pos, contempt, v, "material-family") << "}\n";
+                    else { pairJ(os, "same", evJ(pos, contempt, v, "material-family-through-shared-tables"), evJ(pos, contempt, freshEval(pos, contempt), "fresh")); pairs++; }
+                    break;
+                }
+            }
+        };
         for (int w = 0; w < n; w++) {
+            if (w % 2 == 1) materialFamily();
             Position pos;
             if (rnd.nextInt(4) == 0) {
                 bool ok = false;
